@@ -166,7 +166,7 @@ def load_witness(w):
 
 
 LOAD = Contract(
-    key=f'{REP}:Representation.load', props=['C06'],
+    key=f'{REP}:Representation.load', props=['C06', 'C16'],
     env=lambda w: {'clz': Opaque('class:Representation'), 'filename': Opaque('filename'), 'atoms': atoms_obj(w), 'verbose': 0},
     requires=[('layout', 'layout'), ('first_moof_def', 'first_moof_def'), ('moov_timescale', 'moov_timescale >= 1'),
               # regions of the arithmetic at the end of load (known finding C16-load-degenerate-index otherwise):
